@@ -159,6 +159,48 @@ def shared_harness(e):
     return scenario
 
 
+def value_pairs_harness(e):
+    """Values that Python's == identifies but the content digest distinguishes (1 / True / 1.0,
+    0 / False, -0.0 / 0.0 ...), on classes at different depths of the class hierarchy, at the
+    root and below a parent; and origins that differ only below a non-comparable child field."""
+    from models.zoo import VNcKid, VSubLeaf, VTyped, origin
+
+    reset_all()
+    POOL = [1, True, 1.0, 0, False, 0.0, -0.0, "1"]  # noqa: N806
+    i, j = e.choice(len(POOL), "left_value"), e.choice(len(POOL), "right_value")
+    where = e.pick(["VLeaf", "VSubLeaf", "VTyped.a", "below-a-parent", "below-a-non-comparable-child-field"], "where")
+    a, b = POOL[i], POOL[j]
+
+    def make(v, okey=None):
+        from models.zoo import VLeaf, VMany
+
+        if where == "VLeaf":
+            return VLeaf(v=v)
+        if where == "VSubLeaf":
+            return VSubLeaf(v=v)
+        if where == "VTyped.a":
+            return VTyped(a=v)
+        if where == "below-a-parent":
+            return VMany(items=(VLeaf(v=v),))
+        return VNcKid(kid=VLeaf(v=v, **({} if okey is None else {"origin": origin(okey)})))
+
+    same_content = (type(a) is type(b)) and repr(a) == repr(b)
+    x, y = make(a), make(b)
+    got = [x == y, y == x, not (x != y)]
+    want = same_content
+    scenario = {"kind": "value-pairs", "where": where, "left": repr(a), "right": repr(b), "expected_equal": want, "eq": got[0]}
+    if any(g is not want for g in got):
+        e.fail(("equal-trees-compare-unequal" if want else "unequal-trees-compare-equal") + ":python-equal-values", scenario=scenario)
+    if where == "below-a-non-comparable-child-field" and i == j:
+        # same content, origins differ only at the child held by the compare=False field
+        z = make(a, "a")
+        if (x == z) or (z == x) or not (x != z):
+            scenario.update(note="origins differ below the non-comparable child field")
+            e.fail("unequal-trees-compare-equal:origin-below-non-comparable-child-field", scenario=scenario)
+    e.distinct((i, j, where))
+    return scenario
+
+
 def _triple_pool():
     L = lambda v, o=None: R("VLeaf", {"v": v}, o)  # noqa: E731
     out = []
@@ -238,6 +280,7 @@ def spec(tier: str, seed: int) -> Spec:
     fams = [Family(f"origin-edit[{k}:{k + chunk}]", make_origin_harness(bases[k : k + chunk]), variables="selectors: base recipe, position, origin of x, origin of y, mode") for k in range(0, len(bases), chunk)]
     fams.append(Family("all-pairs", make_pairs_harness(all_shapes(3, 3)), variables="selectors: two recipes"))
     fams.append(Family("shared-objects", shared_harness, variables="selectors: origin per position of x and y, which positions hold one shared object, wrapper"))
+    fams.append(Family("python-equal-values", value_pairs_harness, variables="selectors: two values from a pool of ==-equal / content-different values, class depth / position"))
     fams.append(Family("triples", triple_harness, variables="selectors: three trees from a pool with equal-but-distinct origins"))
     fams.append(Family("foreign", foreign_harness, variables="selector: comparand kind"))
     return Spec(
